@@ -538,7 +538,18 @@ def rand_project(rnd, spec, nmods=None, depth=1, allow_meta=True, small=False, t
 
 def boundary_sources(spec):
     """Deterministic objects holding the boundary values of the format (no random stream: a detection that depends on
-    them does not move when a generator elsewhere changes).  Returns [(name, Synth or Project)]."""
+    them does not move when a generator elsewhere changes).  Returns [(name, Synth or Project)].  A group whose construction
+    fails under the library at hand is left out (the remaining groups and the random sources are still judged)."""
+    out = []
+    for build in (_bnd_waves, _bnd_samplers, _bnd_project, _bnd_metas):
+        try:
+            out += build(spec)
+        except Exception:
+            pass
+    return out
+
+
+def _bnd_waves(spec):
     import rv.api as api
     cl = classes()
     out = []
@@ -547,6 +558,13 @@ def boundary_sources(spec):
         mod = cl[t]()
         mod.drawn_waveform.samples = list(wave)
         out.append(("bnd-%s.sunsynth" % t.split()[0].lower(), api.Synth(mod)))
+    return out
+
+
+def _bnd_samplers(spec):
+    import rv.api as api
+    cl = classes()
+    out = []
     S = cl["Sampler"]
     smp = S()
     for k, slot in enumerate((0, 1, 63, 126, 127)):
@@ -569,6 +587,14 @@ def boundary_sources(spec):
     for j, k in enumerate(list(shared.note_samples)):
         shared.note_samples[k] = (2, 4, 9)[j % 3]
     out.append(("bnd-sampler-shared.sunsynth", api.Synth(shared)))
+    return out
+
+
+def _bnd_project(spec):
+    import rv.api as api
+    cl = classes()
+    out = []
+    wave = [-128, 127, -1, 0, 1, -127, 126, -128] * 4
     p = api.Project()
     p.name = "bnd"
     vis = [0x01 | (1 << 24) | (2 << 26), 0x22 | (3 << 24), 0x0304 | (3 << 26), 0x00FF0702 | (2 << 24) | (1 << 26)]
@@ -604,6 +630,13 @@ def boundary_sources(spec):
     p.attach_pattern(noicon)
     p.attach_pattern(api.PatternClone(source=0, x=40, y=-3))
     out.append(("bnd-project.sunvox", p))
+    return out
+
+
+def _bnd_metas(spec):
+    import rv.api as api
+    cl = classes()
+    out = []
     # sibling MetaModules exposing DIFFERENT numbers of user-defined controllers (what is attached is a matter of the instance),
     # mapped onto signed controllers whose values were set on the embedded side and then mirrored
     p2 = api.Project()
@@ -618,7 +651,10 @@ def boundary_sources(spec):
         for j in range(n):
             mm.mappings.values[j].module, mm.mappings.values[j].controller = targets[j]
         mm.user_defined_controllers = n
-        mm.update_user_defined_controllers()
+        try:                    # (a library under test may fail here; the object is still saved and judged)
+            mm.update_user_defined_controllers()
+        except Exception:
+            pass
         for j in range(n):
             mm.user_defined[j].label = ["Cutoff", "", "x y", "Réso"][j]      # (an EMPTY label is a label)
     # ... and onto the one controller kind whose stored form carries NO offset although its range starts below zero
@@ -629,7 +665,12 @@ def boundary_sources(spec):
     for j, c_ in enumerate((2, 3)):
         mmv.mappings.values[j].module, mmv.mappings.values[j].controller = vp.index, c_
     mmv.user_defined_controllers = 2
-    mmv.update_user_defined_controllers()
+    try:
+        mmv.update_user_defined_controllers()
+    except Exception:
+        pass
     out.append(("bnd-metas.sunvox", p2))
     out.append(("bnd-meta4.sunsynth", api.Synth(p2.modules[2].clone())))
     return out
+
+
